@@ -10,9 +10,14 @@ package agent
 //  valid (every reached state): each learned route's next hop is a current neighbour; its
 //        recorded path starts at that next hop, is a chain of existing links, does not
 //        revisit an agent, and ends at the origin.
+//        A stream opened along the entry (to the next hop, with Path[1:] as the remaining path)
+//        walks over existing links and arrives at the origin.
 //  complete (states where every agent has announced and no frame is in flight): every agent
 //        has an agent-presence route to every other agent and every CIDR / domain / forward
 //        route advertised by every exit.
+
+// Second family (rounds_test.go): several advertisement sequences of one origin over even rings, where
+// an agent has two equally long ways to the origin that do not share their tail; same clauses, every event.
 
 import (
 	"fmt"
@@ -23,79 +28,119 @@ import (
 	"github.com/postalsys/muti-metroo/internal/vmc"
 )
 
+// c12Valid is the validity clause, evaluated in every reached state: each learned route's next hop is a
+// current neighbour; its recorded path starts at that next hop, is a chain of existing links, does not
+// revisit an agent and ends at the origin; and a stream opened along the entry -- STREAM_OPEN goes to the
+// next hop with Path[1:] as the remaining path, every agent on the way forwards to the next one over a
+// link it has -- arrives at the origin.
+func c12Valid(r *vmc.Result, nt *nsNet, scs string, rep func() any) {
+	for i := 0; i < nt.n; i++ {
+		for _, rt := range nt.routes(i) {
+			if rt.NextHop == (identity.AgentID{}) || rt.NextHop == nt.ids[i] || rt.Origin == nt.ids[i] {
+				continue
+			}
+			nh := nt.idx(rt.NextHop)
+			desc := fmt.Sprintf("%s: agent n%d %s route %s origin %s next hop %s path %s", scs, i, rt.Kind, rt.Key, nt.name(rt.Origin), nt.name(rt.NextHop), nt.pathStr(rt.Path))
+			if nh < 0 || !nt.linked(i, nh) {
+				r.Violate("C12/next-hop-not-neighbour/"+rt.Kind, desc, rep())
+				continue
+			}
+			// the walk of a stream opened along this entry (agent.go: next hop + Path[1:])
+			{
+				var rest []identity.AgentID
+				if len(rt.Path) > 0 {
+					rest = rt.Path[1:]
+				}
+				at, ok := nh, true
+				for _, hop := range rest {
+					h := nt.idx(hop)
+					if h < 0 || !nt.linked(at, h) {
+						r.Violate("C12/stream-walk-breaks/"+rt.Kind, fmt.Sprintf("%s: a stream opened along it is sent to %s with the remaining path %s; n%d has no link to %s", desc, nt.name(rt.NextHop), nt.pathStr(rest), at, nt.name(hop)), rep())
+						ok = false
+						break
+					}
+					at = h
+				}
+				if ok && nt.ids[at] != rt.Origin {
+					r.Violate("C12/stream-walk-ends-elsewhere/"+rt.Kind, fmt.Sprintf("%s: a stream opened along it ends at n%d, not at the origin", desc, at), rep())
+				}
+			}
+			if len(rt.Path) == 0 || rt.Path[0] != rt.NextHop {
+				r.Violate("C12/path-does-not-start-at-next-hop/"+rt.Kind, desc, rep())
+				continue
+			}
+			if rt.Path[len(rt.Path)-1] != rt.Origin {
+				r.Violate("C12/path-does-not-end-at-origin/"+rt.Kind, desc, rep())
+			}
+			seen := map[identity.AgentID]bool{nt.ids[i]: true}
+			prev := i
+			for _, hop := range rt.Path {
+				h := nt.idx(hop)
+				if h < 0 || !nt.linked(prev, h) {
+					r.Violate("C12/path-not-a-chain-of-links/"+rt.Kind, desc, rep())
+					break
+				}
+				if seen[hop] {
+					r.Violate("C12/path-revisits-agent/"+rt.Kind, desc, rep())
+					break
+				}
+				seen[hop] = true
+				prev = h
+			}
+			r.Nontrivial(fmt.Sprintf("valid|%s|len=%d", rt.Kind, len(rt.Path)))
+		}
+	}
+}
+
+// c12Complete is the completeness clause, evaluated in quiescent states after all announcements: every
+// agent has an agent-presence route to every other agent that has announced (present) and every CIDR /
+// domain / forward route advertised by every exit.
+func c12Complete(r *vmc.Result, nt *nsNet, scs string, present, isExit map[int]bool, rep func() any) {
+	for i := 0; i < nt.n; i++ {
+		for j := 0; j < nt.n; j++ {
+			if i == j {
+				continue
+			}
+			if present[j] && nt.agents[i].routeMgr.LookupAgent(nt.ids[j]) == nil {
+				r.Violate("C12/agent-presence-missing", fmt.Sprintf("%s: converged, but agent n%d has no presence route to n%d", scs, i, j), rep())
+			}
+			if isExit[j] {
+				want := map[string]bool{
+					"cidr|10.0.0.0/8": false, fmt.Sprintf("cidr|10.%d.0.0/16", j+1): false,
+					"domain|*.ex.test": false, fmt.Sprintf("domain|h%d.ex.test", j): false, "forward|web": false,
+				}
+				for _, rt := range nt.routes(i) {
+					if rt.Origin == nt.ids[j] {
+						k := rt.Kind + "|" + rt.Key
+						if _, ok := want[k]; ok {
+							want[k] = true
+						}
+					}
+				}
+				for k, ok := range want {
+					if !ok {
+						r.Violate("C12/advertised-route-missing/"+k[:4], fmt.Sprintf("%s: converged, but agent n%d has not learned %s advertised by exit n%d", scs, i, k, j), rep())
+					}
+				}
+			}
+		}
+	}
+}
+
 func c12Check(r *vmc.Result, sc nsFloodScenario) func(nt *nsNet, hist []string) {
 	isExit := map[int]bool{}
 	for _, e := range sc.Exits {
 		isExit[e] = true
 	}
+	all := map[int]bool{}
+	for i := 0; i < sc.N; i++ {
+		all[i] = true
+	}
 	return func(nt *nsNet, hist []string) {
 		rep := func() any { s := sc; s.History = hist; return s }
-		for i := 0; i < nt.n; i++ {
-			for _, rt := range nt.routes(i) {
-				if rt.NextHop == (identity.AgentID{}) || rt.NextHop == nt.ids[i] || rt.Origin == nt.ids[i] {
-					continue
-				}
-				nh := nt.idx(rt.NextHop)
-				desc := fmt.Sprintf("%s: agent n%d %s route %s origin %s next hop %s path %s", sc, i, rt.Kind, rt.Key, nt.name(rt.Origin), nt.name(rt.NextHop), nt.pathStr(rt.Path))
-				if nh < 0 || !nt.linked(i, nh) {
-					r.Violate("C12/next-hop-not-neighbour/"+rt.Kind, desc, rep())
-					continue
-				}
-				if len(rt.Path) == 0 || rt.Path[0] != rt.NextHop {
-					r.Violate("C12/path-does-not-start-at-next-hop/"+rt.Kind, desc, rep())
-					continue
-				}
-				if rt.Path[len(rt.Path)-1] != rt.Origin {
-					r.Violate("C12/path-does-not-end-at-origin/"+rt.Kind, desc, rep())
-				}
-				seen := map[identity.AgentID]bool{nt.ids[i]: true}
-				prev := i
-				for _, hop := range rt.Path {
-					h := nt.idx(hop)
-					if h < 0 || !nt.linked(prev, h) {
-						r.Violate("C12/path-not-a-chain-of-links/"+rt.Kind, desc, rep())
-						break
-					}
-					if seen[hop] {
-						r.Violate("C12/path-revisits-agent/"+rt.Kind, desc, rep())
-						break
-					}
-					seen[hop] = true
-					prev = h
-				}
-				r.Nontrivial(fmt.Sprintf("valid|%s|len=%d", rt.Kind, len(rt.Path)))
-			}
-		}
+		c12Valid(r, nt, sc.String(), rep)
 		if nt.quiescent() && nsAllAnnounced(sc, hist) {
-			for i := 0; i < nt.n; i++ {
-				for j := 0; j < nt.n; j++ {
-					if i == j {
-						continue
-					}
-					if nt.agents[i].routeMgr.LookupAgent(nt.ids[j]) == nil {
-						r.Violate("C12/agent-presence-missing", fmt.Sprintf("%s: converged, but agent n%d has no presence route to n%d", sc, i, j), rep())
-					}
-					if isExit[j] {
-						want := map[string]bool{
-							"cidr|10.0.0.0/8": false, fmt.Sprintf("cidr|10.%d.0.0/16", j+1): false,
-							"domain|*.ex.test": false, fmt.Sprintf("domain|h%d.ex.test", j): false, "forward|web": false,
-						}
-						for _, rt := range nt.routes(i) {
-							if rt.Origin == nt.ids[j] {
-								k := rt.Kind + "|" + rt.Key
-								if _, ok := want[k]; ok {
-									want[k] = true
-								}
-							}
-						}
-						for k, ok := range want {
-							if !ok {
-								r.Violate("C12/advertised-route-missing/"+k[:4], fmt.Sprintf("%s: converged, but agent n%d has not learned %s advertised by exit n%d", sc, i, k, j), rep())
-							}
-						}
-					}
-				}
-			}
+			c12Complete(r, nt, sc.String(), all, isExit, rep)
 			r.Nontrivial("converged|" + sc.String())
 			r.Add("converged_states", 1)
 		}
@@ -104,9 +149,21 @@ func c12Check(r *vmc.Result, sc nsFloodScenario) func(nt *nsNet, hist []string) 
 
 func TestVerif_C12(t *testing.T) {
 	r := vmc.New("C12", "model_checking")
-	r.Rule = "BFS over all interleavings of one announcement per agent and all frame deliveries in meshes of real agents (every connected graph up to 3/4 agents x exit placements); non-trivial = distinct (table, path length) combinations validated plus distinct converged scenarios"
+	r.Rule = "BFS over all interleavings of one announcement per agent and all frame deliveries in meshes of real agents (every connected graph up to 3/4 agents x exit placements); plus the rounds family (rounds_test.go): even rings of 4 and 6 agents (thorough also 5, a chord, two exits) where the origin's connect-time tables and one or two announcements travel both ways round, every order of announce / deliver; non-trivial = distinct (table, path length) combinations validated, distinct converged scenarios, and (table, same/other length, hops) of entries observed moving to another next hop"
 	r.Assume("links are FIFO and reliable; topology is stable during a scenario; handlers run synchronously per delivered frame")
 	r.Assume("map iteration order fixed to sorted order by the maprange rewriter")
+	var fam struct {
+		Family string `json:"family"`
+	}
+	if r.ReplayInto(&fam) && fam.Family == "rounds" {
+		var rd c12rdScenario
+		r.ReplayInto(&rd)
+		c12rdReplay(t, r, rd)
+		if err := r.Finish(); err != nil {
+			t.Fatal(err)
+		}
+		return
+	}
 	var rp nsFloodScenario
 	if r.ReplayInto(&rp) {
 		chk := c12Check(r, rp)
@@ -137,6 +194,9 @@ func TestVerif_C12(t *testing.T) {
 			}
 		}
 	}
+	// several announcement rounds over equal-cost, tail-disjoint ways (rounds_test.go); first, so that the
+	// thorough tier's large 4-agent graphs cannot use up the deadline before this family has run
+	c12rdRun(t, r)
 	for _, sc := range scs {
 		if r.Expired() {
 			break
